@@ -517,18 +517,20 @@ func (f *Flow) transferRetChoice(in ssa.Instruction, c *ssa.CallCommon, ret *ssa
 		return false
 	}
 	sm := f.A.Summary(g)
-	if sm == nil || sm.resIdx < 0 {
+	if sm == nil {
 		return false
 	}
-	okTerm := callTerm
-	if sm.nres > 1 {
-		okTerm = mkExt(itoa(sm.resIdx), callTerm)
-	}
 	var okAtom *Atom
-	if sm.resKind == "error" {
-		okAtom = ErrNil(okTerm)
-	} else {
-		okAtom = Truth(okTerm)
+	if sm.resIdx >= 0 {
+		okTerm := callTerm
+		if sm.nres > 1 {
+			okTerm = mkExt(itoa(sm.resIdx), callTerm)
+		}
+		if sm.resKind == "error" {
+			okAtom = ErrNil(okTerm)
+		} else {
+			okAtom = Truth(okTerm)
+		}
 	}
 	if ret == nil {
 		// failing outcome: ordinary transfer, then the failure is known
@@ -573,9 +575,11 @@ func (f *Flow) transferRetChoice(in ssa.Instruction, c *ssa.CallCommon, ret *ssa
 				}
 				nf.Add(atomOf(Bin("==", lhs, gc.Term(r)), site))
 			}
-			oa := *okAtom
-			oa.Site = site
-			nf.Add(&oa)
+			if okAtom != nil {
+				oa := *okAtom
+				oa.Site = site
+				nf.Add(&oa)
+			}
 			nf.Add(&Atom{Pred: "done", Args: []*Term{callTerm}, Site: f.A.P.InstrPos(in)})
 		}
 		f.retCache[key] = nf
